@@ -73,7 +73,14 @@ func (c *Ctx) See(fn *ssa.Function) {
 	}
 }
 
-func (c *Ctx) add(o Ob) { c.Obs = append(c.Obs, o) }
+func (c *Ctx) add(o Ob) {
+	for _, x := range c.Obs {
+		if x.Rule == o.Rule && x.Construct == o.Construct && x.Status == o.Status && x.Pos == o.Pos {
+			return // the same obligation reached through another path of the call tree
+		}
+	}
+	c.Obs = append(c.Obs, o)
+}
 
 // OK records a discharged obligation.
 func (c *Ctx) OK(rule, construct, detail string, at ssa.Instruction) {
